@@ -920,12 +920,11 @@ func (sc *segmentController[T, O]) create(ctx context.Context, start time.Time) 
 	if marshalErr != nil {
 		logger.Panicf("cannot marshal segment metadata: %s", marshalErr)
 	}
+	// The metadata must be complete and durable before anything is stored in the segment: start-up removes
+	// a segment whose metadata is missing or empty together with everything in it, and refuses to open the
+	// database when it is truncated. Write it atomically (tmp file, fsync, rename, fsync of the directory).
 	metadataPath := filepath.Join(segPath, metadataFilename)
-	lf, err := sc.lfs.CreateLockFile(metadataPath, FilePerm)
-	if err != nil {
-		logger.Panicf("cannot create lock file %s: %s", metadataPath, err)
-	}
-	n, err := lf.Write(data)
+	n, err := sc.lfs.WriteAtomic(data, metadataPath, FilePerm)
 	if err != nil {
 		logger.Panicf("cannot write metadata %s: %s", metadataPath, err)
 	}
